@@ -249,7 +249,10 @@ func verifAnyType(depth int, user, ext *types.Package) types.Type {
 	if depth == 0 {
 		return verifLeaf(user, ext)
 	}
+	// unary constructors nest to the full depth; the children of functions,
+	// structs and interfaces are leaves (keeps the number of shapes tractable)
 	sub := func() types.Type { return verifAnyType(depth-1, user, ext) }
+	leaf := func() types.Type { return verifAnyType(0, user, ext) }
 	switch verifChoice(10) {
 	case 0:
 		return verifLeaf(user, ext)
@@ -267,7 +270,7 @@ func verifAnyType(depth int, user, ext *types.Package) types.Type {
 		var params []*types.Var
 		np := verifChoice(3)
 		for i := 0; i < np; i++ {
-			params = append(params, types.NewVar(token.NoPos, nil, "", sub()))
+			params = append(params, types.NewVar(token.NoPos, nil, "", leaf()))
 		}
 		variadic := false
 		if np > 0 && verifChoice(2) == 1 {
@@ -285,7 +288,7 @@ func verifAnyType(depth int, user, ext *types.Package) types.Type {
 		var tags []string
 		nf := 1 + verifChoice(2)
 		for i := 0; i < nf; i++ {
-			ft := sub()
+			ft := leaf()
 			embedded := false
 			name := "F" + strconv.Itoa(i)
 			if n, ok := ft.(*types.Named); ok && verifChoice(2) == 1 {
@@ -305,7 +308,7 @@ func verifAnyType(depth int, user, ext *types.Package) types.Type {
 	case 8: // interface with 0..1 methods
 		var ms []*types.Func
 		if verifChoice(2) == 1 {
-			sig := types.NewSignatureType(nil, nil, nil, types.NewTuple(types.NewVar(token.NoPos, nil, "", sub())), types.NewTuple(), false)
+			sig := types.NewSignatureType(nil, nil, nil, types.NewTuple(types.NewVar(token.NoPos, nil, "", leaf())), types.NewTuple(), false)
 			ms = append(ms, types.NewFunc(token.NoPos, user, "M", sig))
 		}
 		it := types.NewInterfaceType(ms, nil)
